@@ -205,7 +205,7 @@ class SeqGen:
                         bops += self.g.markers(bid, info)
                 if seg_markers:
                     names = canonical_names([basename(o["name"]["s"]) if o.get("name") else
-                                             {"gsc": "gaussian_smooth_cutoff"}.get(o["fn"], o["fn"] if isinstance(o["fn"], str) else o["fn"]["name"]).rstrip("0123456789")
+                                             ({"gsc": "gaussian_smooth_cutoff"}.get(o["fn"], o["fn"]) if isinstance(o["fn"], str) else o["fn"]["name"]).rstrip("0123456789")
                                              for o in bops if o["op"] == "bp.insert"])
                     bops += self.g.seg_marker_ops(bid, names, info)
                 ops += bops
@@ -217,7 +217,7 @@ class SeqGen:
 
     def sequence(self, sid, npos=(1, 3), nch=(1, 3), SR=None, N=None, raw_p=0.3, kinds=("ramp",), flags_p=0.0,
                  delays_p=0.0, filters_p=0.0, offsets=True, amp=None, sub_p=0.0, seq_p=0.3, permute=True,
-                 waits=0.0, markers=True, same_N=False, chan_pool=None, nseg=(1, 4)):
+                 waits=0.0, markers=True, same_N=False, chan_pool=None, nseg=(1, 4), shuffle_p=0.3):
         """ops creating a consistent sequence `sid`.  Returns (ops, info)."""
         r = self.r
         SR = SR if SR is not None else r.choice([1, 10, 100, 1e3, 2.5, 1e6, 1e9])
@@ -227,7 +227,10 @@ class SeqGen:
         ops = [{"op": "sq.new", "id": sid}, {"op": "sq.setSR", "id": sid, "v": enc(SR)}]
         n_common = N if N is not None else r.randint(4, 30)
         info = {"SR": SR, "chans": chans, "P": P, "subs": {}, "els": {}}
-        for p in range(1, P + 1):
+        order_of_adding = list(range(1, P + 1))
+        if r.random() < shuffle_p:
+            r.shuffle(order_of_adding)      # positions may be filled in any order
+        for p in order_of_adding:
             n = n_common if (same_N or N is not None) else r.randint(4, 30)
             if r.random() < sub_p:
                 sub = self.g.fresh("s")
